@@ -1,6 +1,7 @@
 //! Replays witnesses and runs fidelity / witness-search batteries against the REAL crates
 //! in /repo (path dependencies).  Built with debug assertions and overflow checks.
 mod k3;
+mod k10;
 mod k7;
 mod k8;
 mod v1;
@@ -16,6 +17,8 @@ fn main() {
         "fidelity-v5" => k3::fidelity(),
         "fidelity-v6" => k3::fidelity_printer(),
         "replay-k3" => k3::replay(&args[2]),
+        "witness-k10" => k10::witness(),
+        "replay-k10" => k10::replay(&args[2]),
         "witness-k7" => k7::witness(),
         "witness-k8" => k8::witness(),
         "replay-k8" => k8::replay(&args[2]),
